@@ -601,6 +601,47 @@ pub fn run_c17(p: &Params) -> Outcome {
         out
     };
     out.merge(exhaustive("C17", p, &inits_upto(3), &[4], &[0], &[true], 1, &in_txn, &nt, "c17-exh-txn"));
+    // transactions during which every receiver goes away (the library records diffs only while somebody
+    // listens): all bodies of length <= 5 over {clear, push_back, pop_back, insert(0), truncate(1),
+    // [drop all subscribers]}, committed or dropped; contents and return values must still be a plain vector's
+    let rl_ops = [VOp::Clear, VOp::PushBack(7), VOp::PopBack, VOp::Insert(0, 8), VOp::Truncate(1), VOp::DropSubs];
+    let rl_depth = if p.thorough { 6 } else { 5 };
+    let mut bodies: Vec<Vec<VOp>> = vec![vec![]];
+    let mut frontier: Vec<Vec<VOp>> = vec![vec![]];
+    for _ in 0..rl_depth {
+        let mut next = vec![];
+        for b in &frontier {
+            for o in &rl_ops {
+                let mut c = b.clone();
+                c.push(o.clone());
+                next.push(c);
+            }
+        }
+        bodies.extend(next.iter().cloned());
+        frontier = next;
+    }
+    let gen_rl = "c17-exh-receiverless-txn";
+    let mut rl = p.cases(gen_rl, bodies.len() as u64, |i, out| {
+        let body = &bodies[i as usize];
+        for init in [vec![], vec![1u32, 2]] {
+            for end in [TxEnd::Commit, TxEnd::Drop] {
+                let ops = vec![
+                    HOp::Sub { batched: false },
+                    HOp::V(VOp::Txn(body.clone(), end.clone())),
+                    HOp::V(VOp::PopBack),
+                    HOp::Sub { batched: true },
+                    HOp::V(VOp::PushBack(3)),
+                    HOp::Poll { sub: 1, max: 0 },
+                ];
+                let h = VecHistory { capacity: 4, init: init.clone(), ops };
+                judge_vec("C17", &h, json!({"gen": gen_rl, "case": i}), out, &nt);
+            }
+        }
+    });
+    rl.ev.exhaustive_scopes.push(format!(
+        "{gen_rl}: every transaction body of length <= {rl_depth} over {{clear, push_back, pop_back, insert(0), truncate(1), drop-all-subscribers}} x 2 initial vectors x {{commit, drop}}, with a subscriber present at the start"
+    ));
+    out.merge(rl);
     // traversal: all decision sequences over {keep,set,remove,set-then-remove,stop} for length <= 5
     let maxlen = if p.thorough { 6 } else { 5 };
     let trav = move |m: &[u32]| -> Vec<VOp> {
